@@ -99,6 +99,39 @@ def handle (args : List String) : String :=
       if n = 0 then return "bad-op"
       let some cols := parseCols? (2 * n) S | return "bad-op"
       return if (Tab.colSp ⟨n, 0, cols⟩) then "1" else "0"
+  | ["randcliff", n, rbits, tup, s1, s2] => Id.run do
+      -- `s1`, `s2`: the two scripted integers (seeds) whose generators produced the raw draws; not used by the model
+      let some _ := s1.toNat? | return "bad-op"
+      let some _ := s2.toNat? | return "bad-op"
+      let some n := n.toNat? | return "bad-op"
+      if n = 0 then return "bad-op"
+      let some r := parseVec? (2 * n) rbits | return "bad-op"
+      let some t := parseNatList? tup | return "bad-op"
+      if t.length ≠ 2 * n then return "bad-op"
+      let pairs := (List.range n).map fun i => (t.getD (2 * i) 0, t.getD (2 * i + 1) 0)
+      if !SpF2.inRange pairs then return "bad-op"
+      return tabStr (randCliffordGroup n r pairs)
+  | ["rpauli", n, req, raw] => Id.run do
+      let some n := n.toNat? | return "bad-op"
+      let some l := parseBits? raw | return "bad-op"
+      if l.length ≠ 2 * n + 2 then return "bad-op"
+      let some req := (match req with | "N" => some none | "H" => some (some true) | "A" => some (some false) | _ => none) | return "bad-op"
+      return bitsStr (randPauliPost req (Pauli.ofF2List n l)).toF2List
+  | ["psubeq", n, sub] => Id.run do
+      let some n := n.toNat? | return "bad-op"
+      if n = 0 || n > 2 then return "bad-op"
+      let some sub := parseNatList? sub | return "bad-op"
+      if sub.isEmpty || sub.any (· ≥ 4 ^ n) then return "bad-op"
+      let lexLe : List Nat → List Nat → Bool := fun a b => decide (a ≤ b)
+      let out := (subsetEquivalent n sub).mergeSort lexLe
+      return "|".intercalate (out.map natListStr)
+  | ["psubstab", n, sub] => Id.run do
+      let some n := n.toNat? | return "bad-op"
+      if n = 0 || n > 2 then return "bad-op"
+      let some sub := parseNatList? sub | return "bad-op"
+      if sub.isEmpty || sub.any (· ≥ 4 ^ n) then return "bad-op"
+      let out := subsetStabilizer n sub
+      return if out.isEmpty then "-" else "|".intercalate (out.map fun t => natListStr (t.flatMap fun p => [p.1, p.2]))
   | ["a2f", k, M] => Id.run do
       let some k := k.toNat? | return "bad-op"
       if k = 0 || k > 4 then return "bad-op"
